@@ -5,6 +5,7 @@
   variables with those cardinalities, `Bounded K a` that `a` is a genuine joint state.
 -/
 import PgmVerif.Proofs.Factor
+import Mathlib.Algebra.BigOperators.Group.List.Basic
 namespace PgmVerif
 open Factor
 
@@ -159,5 +160,37 @@ theorem C04_scalar_neutral (K : Var → Nat) (f : Factor) (hf : f.WF K) (a : Asg
     (product f (Factor.scalar 1)).den a = f.den a ∧ (add f (Factor.scalar 0)).den a = f.den a := by
   have h := C04_scalar_ops K f hf
   exact ⟨by rw [(h 1 a ha).1, Rat.mul_one], by rw [(h 0 a ha).2.1, Rat.add_zero]⟩
+
+
+/-- every entry multiplied by `c` -/
+def Factor.scale (c : Rat) (f : Factor) : Factor := { f with vals := f.vals.map (c * ·) }
+
+theorem scale_wf (K : Var → Nat) (c : Rat) (f : Factor) (hf : f.WF K) : (Factor.scale c f).WF K := by
+  refine ⟨hf.1, hf.2.1, ?_⟩
+  simp only [Factor.scale, Array.size_map]
+  exact hf.2.2
+
+theorem scale_den (c : Rat) (f : Factor) (a : Asg) : (Factor.scale c f).den a = c * f.den a := by
+  unfold Factor.den Factor.scale
+  simp only [Array.getD_eq_getD_getElem?, Array.getElem?_map]
+  cases f.vals[ravel f.card (List.map a f.scope)]? <;> simp
+
+theorem list_sum_map_mul (c : Rat) {α : Type} (h : α → Rat) : ∀ l : List α,
+    (l.map (fun i => c * h i)).sum = c * (l.map h).sum
+  | [] => by simp
+  | x :: l => by simp [list_sum_map_mul c h l, mul_add]
+
+/-- **normalising forgets the scale**: a table and any non-zero multiple of it normalise to the same table (likelihoods and
+    unnormalised posteriors are defined up to a constant; a posterior with P(evidence) = 1e-300 is as good as any) -/
+theorem C04_normalize_scale (K : Var → Nat) (f : Factor) (hf : f.WF K) (c : Rat) (hc : c ≠ 0) (a : Asg) :
+    (normalize (Factor.scale c f)).den a = (normalize f).den a := by
+  rw [C04_den_normalize K _ (scale_wf K c f hf) a, C04_den_normalize K f hf a, scale_den]
+  have hs : (Factor.scale c f).scope = f.scope := rfl
+  have hk : (Factor.scale c f).card = f.card := rfl
+  rw [hs, hk]
+  have : (fun i => (Factor.scale c f).den (asgOf f.scope f.card i)) = (fun i => c * f.den (asgOf f.scope f.card i)) := by
+    funext i; exact scale_den c f _
+  rw [this, list_sum_map_mul c (fun i => f.den (asgOf f.scope f.card i))]
+  exact mul_div_mul_left _ _ hc
 
 end PgmVerif
